@@ -18,21 +18,43 @@
 (***************************************************************************)
 EXTENDS Integers, Sequences, FiniteSets, TLC
 
-CONSTANTS Threads, Texts, MaxReads, MaxRuns,
-          Variant          \* sound: "sound" (a tokenizer per thread), "guarded_shared" (one tokenizer, exclusive borrow or lock for the whole call)
+CONSTANTS
+    \* @type: Set(Str);
+    Threads,
+    \* @type: Set(Str);
+    Texts,
+    \* @type: Int;
+    MaxReads,
+    \* @type: Int;
+    MaxRuns,
+    \* @type: Str;
+    Variant                \* sound: "sound" (a tokenizer per thread), "guarded_shared" (one tokenizer, exclusive borrow or lock for the whole call)
                            \* broken: "write_after_freeze", "shared_tokenizer" (no guard), "split_lock" (analysis and result collection are two critical sections)
 
-VARIABLES phase,           \* "loading" | "frozen"
-          dict,            \* version number of the dictionary content
-          frozenAt,        \* the version that was frozen
-          pc,              \* thread -> "idle" | "analysing"
-          cur,             \* thread -> text being analysed
-          reads,           \* thread -> versions read so far by the running analysis
-          scratch,         \* tokenizer -> text its mutable state currently belongs to
-          tokOf,           \* thread -> tokenizer it uses
-          done,            \* set of finished analyses [thread, text, reads, scratch_ok]
-          runs,            \* thread -> analyses finished
-          busy             \* tokenizer -> borrowed / locked
+\* (the @type comments are for Apalache, which discharges the inductive invariant of spec/APA_Concurrent.tla; TLC ignores them)
+VARIABLES
+    \* @type: Str;
+    phase,           \* "loading" | "frozen"
+    \* @type: Int;
+    dict,            \* version number of the dictionary content
+    \* @type: Int;
+    frozenAt,        \* the version that was frozen
+    \* @type: Str -> Str;
+    pc,              \* thread -> "idle" | "analysing"
+    \* @type: Str -> Str;
+    cur,             \* thread -> text being analysed
+    \* @type: Str -> Seq(Int);
+    reads,           \* thread -> versions read so far by the running analysis
+    \* @type: Str -> Str;
+    scratch,         \* tokenizer -> text its mutable state currently belongs to
+    \* @type: Str -> Str;
+    tokOf,           \* thread -> tokenizer it uses
+    \* @type: Set({thread: Str, text: Str, reads: Seq(Int), mine: Bool});
+    done,            \* set of finished analyses [thread, text, reads, scratch_ok]
+    \* @type: Str -> Int;
+    runs,            \* thread -> analyses finished
+    \* @type: Str -> Bool;
+    busy             \* tokenizer -> borrowed / locked
 vars == <<phase, dict, frozenAt, pc, cur, reads, scratch, tokOf, done, runs, busy>>
 
 Shared == Variant \in {"shared_tokenizer", "guarded_shared", "split_lock"}
@@ -93,7 +115,8 @@ Spec == Init /\ [][Next]_vars
 \* ---------------------------------------------------------------- properties
 \* the result of an analysis is the single-threaded result: every read saw the frozen dictionary, and the tokenizer's
 \* state was still the one of its own text when it finished
-Sequential(d) == (\A i \in 1..Len(d.reads) : d.reads[i] = frozenAt) /\ d.mine
+\* @type: ({thread: Str, text: Str, reads: Seq(Int), mine: Bool}) => Bool;
+Sequential(d) == (\A i \in DOMAIN d.reads : d.reads[i] = frozenAt) /\ d.mine
 EveryResultSequential == \A d \in done : Sequential(d)
 \* the dictionary is never modified after loading
 DictImmutable == phase = "frozen" => dict = frozenAt
